@@ -91,15 +91,64 @@ def install_entropy(seed=0):
                                            _sim_default_rng)
     _random.seed(H(seed, 'global-random'))
     np.random.seed(H(seed, 'global-numpy') & 0xffffffff)
+    # random file names (tempfile.mkstemp / NamedTemporaryFile) and uuid4
+    # asked for by a simulated process come from its own seeded stream
+    import tempfile as _tempfile
+    import uuid as _uuid
+    _tempfile._name_sequence = _SeededNames(_tempfile._RandomNameSequence())
+    _uuid.uuid4 = _sim_uuid4
+    _uuid_patches[:] = patch_everywhere(_real_uuid4, _sim_uuid4)
 
 
 _entropy_patches = []
+_uuid_patches = []
+import uuid as _uuid_mod      # noqa: E402
+_real_uuid4 = _uuid_mod.uuid4
+
+
+def _proc_random(proc, label):
+    import random as _random
+    k = proc.__dict__.setdefault('n_' + label, 0)
+    proc.__dict__['n_' + label] = k + 1
+    return _random.Random(H(proc.sim.seed, label, proc.pid, k))
+
+
+class _SeededNames:
+    """tempfile's candidate-name iterator: seeded for simulated processes,
+    the real thing for the machinery itself."""
+    characters = "abcdefghijklmnopqrstuvwxyz0123456789_"
+
+    def __init__(self, real):
+        self._real = real
+
+    def __iter__(self):
+        return self
+
+    def __next__(self):
+        proc = current()
+        if proc is None:
+            return next(self._real)
+        r = _proc_random(proc, 'tmpname')
+        return ''.join(r.choices(self.characters, k=8))
+
+
+def _sim_uuid4():
+    proc = current()
+    if proc is None:
+        return _real_uuid4()
+    return _uuid_mod.UUID(int=_proc_random(proc, 'uuid').getrandbits(128),
+                          version=4)
 
 
 def uninstall_entropy():
+    import tempfile as _tempfile
     np.random.default_rng = _real_default_rng
     unpatch(_entropy_patches, _real_default_rng)
     del _entropy_patches[:]
+    _tempfile._name_sequence = None
+    _uuid_mod.uuid4 = _real_uuid4
+    unpatch(_uuid_patches, _real_uuid4)
+    del _uuid_patches[:]
 
 
 # ---------------------------------------------------------------------------
